@@ -527,6 +527,10 @@ func allDocs(tier string, seed uint64) []Doc {
 			docs[i] = genStringsDoc(r.Sub(), i) // named strings over several pages
 		case i%20 == 7:
 			docs[i] = genUnitsDoc(r.Sub(), i)
+		case i%40 == 35 || i%40 == 15:
+			docs[i] = genFormDoc(r.Sub(), i)
+		case i%40 == 39 || i%40 == 23:
+			docs[i] = genAttachDoc(r.Sub(), i)
 		case i%40 == 19:
 			docs[i] = genSvgChainDoc(r.Sub(), i)
 		case i%40 == 27:
